@@ -1,7 +1,7 @@
 """Loopback stand-in for the SPDX licence-text repository (C19).
 
 A ThreadingHTTPServer on 127.0.0.1:<ephemeral port> serves a per-identifier
-plan: ("ok", body) | ("status", code) | ("reset",) | ("short", body).  The
+plan: ("ok", body) | ("status", code) | ("status-body", code, body) | ("reset",) | ("short", body).  The
 harness points ``reuse.download._SPDX_REPOSITORY_BASE_URL`` at it for the
 duration of one command.
 """
@@ -39,6 +39,14 @@ class Stub:
                     self.send_response(action[1])
                     self.send_header("Content-Length", "0")
                     self.end_headers()
+                elif action[0] == "status-body":
+                    # a 2xx answer that is not the licence text (206 Partial Content, 204 No Content)
+                    body = action[2]
+                    self.send_response(action[1])
+                    self.send_header("Content-Type", "text/plain; charset=utf-8")
+                    self.send_header("Content-Length", str(len(body)))
+                    self.end_headers()
+                    self.wfile.write(body)
                 elif action[0] == "short":
                     body = action[1]
                     self.send_response(200)
